@@ -177,7 +177,8 @@ def expected_order(ns, indices):
 # ------------------------------------------------------------------------------------------------------------------
 # generator
 # ------------------------------------------------------------------------------------------------------------------
-def gen_namespace(rng, n_defs=None, n_roots=None, allow_services=True, allow_ports=False, uavcan_ext=True, next_id=None, same_name_lookup=None):
+def gen_namespace(rng, n_defs=None, n_roots=None, allow_services=True, allow_ports=False, uavcan_ext=True, next_id=None, same_name_lookup=None,
+                  deprecated=0.0):
     n_roots = n_roots or rng.choice([1, 1, 2, 2, 3])
     names = rng.sample(ROOT_NAMES, n_roots)
     roots = []
@@ -256,6 +257,12 @@ def gen_namespace(rng, n_defs=None, n_roots=None, allow_services=True, allow_por
             spell = "relative" if (same_ns and rng.random() < 0.6) else "absolute"
             arr = rng.choice([None, None, ("fixed", rng.randrange(1, 4)), ("var", rng.randrange(1, 5))])
             d["refs"].append({"target": j, "spell": spell, "array": arr})
+    if deprecated:
+        # a deprecated definition may be used by deprecated definitions only: the marker propagates to every referrer
+        # (references point to smaller indices, so one pass in index order closes the set)
+        for d in defs:
+            if rng.random() < deprecated or any(defs[r["target"]]["deprecated"] for r in d["refs"]):
+                d["deprecated"] = True
     return ns
 
 
